@@ -238,14 +238,15 @@ def parse_ref(text):
 
 
 # ----------------------------------------------------------------------------- end-to-end
-MARK_RE = re.compile(r"Rk(\d+): (.*?) :\1kR", re.S)
+MARK_RE = re.compile(r"Rk(\d+)= (.*?) =\1kR", re.S)
 
 
 def e2e_docs(rng, ab, keys, nper):
     """markers: k -> (doc key, ref).  Text for each doc key: a first paragraph with the references, then
     the same references in a code span and in a fenced block."""
     names = sorted({e["name"] for e in ab.ents if e["name"] and re.fullmatch(r"\w+", e["name"])})
-    targets = [i for i, e in enumerate(ab.ents) if e["url"] and re.fullmatch(r"\w+(\.\w+)?", e["name"] or "")]
+    targets = [i for i, e in enumerate(ab.ents) if e["url"] and not str(e["url"]).startswith("http")
+               and re.fullmatch(r"\w+(\.\w+)?", e["name"] or "")]
     marks = {}
 
     def some_ref():
@@ -276,8 +277,8 @@ def doc_texts(marks, skip=()):
             by.setdefault(key, []).append((k, r))
     docs = {}
     for key, l in by.items():
-        first = " ".join(f"Rk{k}: {ref_text(r)} :{k}kR" for k, r in l)
-        code = " ".join(f"`Ck{k}: {ref_text(r)} :{k}kC`" for k, r in l[:1])
+        first = "See " + " ".join(f"Rk{k}= {ref_text(r)} ={k}kR" for k, r in l)
+        code = " ".join(f"`Ck{k}= {ref_text(r)} ={k}kC`" for k, r in l[:1])
         docs[key] = first + "\n\nSecond paragraph with a code span " + code + " in it.\n"
     return docs
 
@@ -287,7 +288,7 @@ def locate(ab, marks, page_keys):
     where = {}
     for i, o in enumerate(ab.objs):
         text = "\n".join(getattr(o, "doc_list", []) or [])
-        for m in re.finditer(r"Rk(\d+): ", text):
+        for m in re.finditer(r"Rk(\d+)= ", text):
             where.setdefault(int(m.group(1)), i)
     return {k: where.get(k) for k in marks if marks[k][0] not in page_keys}
 
@@ -313,6 +314,8 @@ def scan_output(doc):
 
 def check_occurrence(doc, page, inner, exp):
     """the rendered reference on one page against the expected target (relative to the output root)"""
+    if "<a" not in inner and "[[" not in inner:
+        return None                      # tags stripped (<meta name="description">, search index): nothing to follow
     m = re.fullmatch(r'\s*<a(?: href="([^"]*)")?>(.*?)</a>\s*', inner, flags=re.S)
     if not m:
         return f"not an <a> element: {inner[:80]!r}"
@@ -322,6 +325,8 @@ def check_occurrence(doc, page, inner, exp):
     if href is None:
         return "expected a link, got plain text"
     href = html.unescape(href)
+    if href.startswith("http"):
+        return None if href == exp[1] else f"href {href}, expected {exp[1]}"
     path, _, frag = href.partition("#")
     tgt = os.path.normpath(os.path.join(os.path.dirname(doc / page), path))
     rel = os.path.relpath(tgt, doc)
@@ -407,7 +412,7 @@ def end_to_end(chk, rng, nproj):
             # code spans stay verbatim
             for f in doc.rglob("*.html"):
                 t = f.read_text(errors="replace")
-                for m in re.finditer(r"Ck(\d+): (.*?) :\1kC", t, flags=re.S):
+                for m in re.finditer(r"Ck(\d+)= (.*?) =\1kC", t, flags=re.S):
                     stats["code_spans"] += 1
                     kk = int(m.group(1))
                     if kk in marks and html.unescape(m.group(2)) != ref_text(marks[kk][1]):
